@@ -20,7 +20,7 @@ COMPONENTS_STUB = ["UDP socket (SimSocket)", "scripted clients (reference codec)
 ASSUMPTIONS = ["EXCHANGE_LIFETIME is the default 247 s of the incoming message's tuning",
                "copies coinciding (within 1e-9 s) with the empty-ACK timer, handler completion or the expiry timer "
                "are accepted either way"]
-EXPECTED_PROBES = ["dup_before_ack", "dup_after_empty_ack", "dup_after_piggyback", "dup_non", "dup_at_lifetime_minus",
+EXPECTED_PROBES = ["transport_error_for_client", "dup_before_ack", "dup_after_empty_ack", "dup_after_piggyback", "dup_non", "dup_at_lifetime_minus",
                    "dup_at_lifetime_plus", "same_mid_other_endpoint", "dup_same_instant"]
 
 LIFETIME = 247.0
@@ -52,7 +52,13 @@ def gen(r, tier):
                 round(r.uniform(248, 600), 3), 2 * LIFETIME + eps]))
         reqs.append({"id": i, "client": c, "mid": mid, "con": r.chance(0.7), "handler": r.choice(HANDLERS),
                      "no_response": r.choice([None, None, None, 26, 2]), "t": t0, "copies": sorted(offs)})
-    return {"nclients": nclients, "reqs": reqs}
+    # a transport error reported for a client (ICMP) must not make the server forget what it has seen from it
+    icmps = []
+    if r.chance(0.3):
+        for _ in range(r.randint(1, 2)):
+            icmps.append({"t": round(r.uniform(0, 4), 4) if r.chance(0.7) else round(r.uniform(4, 260), 3),
+                          "client": r.randrange(nclients)})
+    return {"nclients": nclients, "reqs": reqs, "icmps": icmps}
 
 
 def systematic(tier):
@@ -158,6 +164,10 @@ def execute(sim, scn):
             cl.send(srv, raw=raw, fate=["at", q["t"] + off])
             ndup += 1
         same_mid.setdefault(q["mid"], set()).add(q["client"])
+    for ic in scn.get("icmps", []):
+        if ic["client"] < len(clients):
+            loop.at(ic["t"], sim.net.icmp, srv, clients[ic["client"]].addr, 111)
+            sim.probe("transport_error_for_client")
     if ndup:
         sim.extra_faults = {"dup": ndup}
     if any(len(v) > 1 for v in same_mid.values()):
@@ -198,8 +208,14 @@ def execute(sim, scn):
             continue
         # what the server sent to this client under this MID / token
         sent = [e for e in wire if e["src"] == srv and e["dst"] == cl.addr and e["msg"] is not None]
+        dur = SLOW if q["handler"] in ("slow", "slowraise") else 0.0
+        icmp_ts = [ic["t"] for ic in scn.get("icmps", []) if ic["client"] == q["client"]]
         for wi, w in enumerate(windows):
             w_start = w[0]
+            if any(w_start - TOL <= ti <= w_start + dur + 0.11 for ti in icmp_ts):
+                # the error report hit while this request was being processed: its handler is cancelled and what it
+                # would have sent is moot; (that it is not executed again is still checked above)
+                continue
             w_end = windows[wi + 1][0] if wi + 1 < len(windows) else float("inf")
             acks = [e for e in sent if e["msg"]["type"] == rc.ACK and e["msg"]["mid"] == q["mid"]
                     and w_start - TOL <= e["t"] < w_end - TOL]
